@@ -94,6 +94,12 @@ func (evt *catchEvent) run(ctx context.Context, sender tracing.ISenderHandle) {
 }
 
 func (evt *catchEvent) ConsumeEvent(ev event.IEvent) (result event.ConsumptionResult, err error) {
+	if !evt.activated.Load() {
+		// not listening: the event is dropped. The node's loop may not even be running (the
+		// node was never reached), in which case nobody would drain its inbox.
+		result = event.Consumed
+		return
+	}
 	evt.mch <- processEventMessage{event: ev}
 	result = event.Consumed
 	return
